@@ -1,5 +1,6 @@
 """Subprocess worker for C12: runs backends on a spec under this process's hash seed and
 history, prints {backend: {file: digest}} as JSON."""
+import gc
 import hashlib
 import json
 import os
@@ -15,11 +16,44 @@ sys.path.insert(1, job['verif'])
 from sv import backends  # noqa: E402
 from stone.frontend.frontend import specs_to_ir  # noqa: E402
 
-specs = [tuple(x) for x in job['specs']]
-other = [tuple(x) for x in job['other']]
+specs = [tuple(x) for x in job.get('specs', [])]
+other = [tuple(x) for x in job.get('other', [])]
 wl = job.get('whitelist')
 root = tempfile.mkdtemp(prefix='sv_c12_')
 out = {}
+
+
+def one_run(sp, b, d, whitelist, keep=False):
+    try:
+        api = specs_to_ir(sp, route_whitelist_filter=whitelist) if whitelist else specs_to_ir(sp)
+        backends.run_backend(b, api, d)
+        files = backends.read_tree(d, skip=set(backends.CONFIGS[b][2]))
+        res = {k: hashlib.blake2b(v, digest_size=8).hexdigest() for k, v in files.items()}
+        if keep:
+            res['__content__'] = {k: v.decode('utf-8', 'replace') for k, v in files.items()}
+        return res
+    except backends.BackendCrash as e:
+        return {'__crash__': e.tb.strip().split('\n')[-1][:120]}
+    except Exception as e:
+        return {'__error__': '%s: %s' % (type(e).__name__, str(e)[:100])}
+
+
+if 'script' in job:
+    # a history: steps (spec index, backend, directory, use whitelist) executed in this one process
+    steps = []
+    try:
+        for i, (si, b, dirname, use_wl) in enumerate(job['script']):
+            sp = [tuple(x) for x in job['spec_sets'][si]]
+            steps.append(one_run(sp, b, os.path.join(root, 'step%d' % i, dirname), wl if use_wl else None,
+                                 keep=job.get('keep_step') == i))
+            # the API description of a finished step is garbage: let the collector run, as it would
+            # at some point in a long-lived build process
+            gc.collect()
+    finally:
+        shutil.rmtree(root, ignore_errors=True)
+    print('##RESULT##' + json.dumps({'steps': steps}))
+    sys.exit(0)
+
 try:
     if job['history'] == 'after_spec':
         try:
